@@ -43,6 +43,16 @@ def run():
         if chk.quick and len(cases) > 3000:
             r.shuffle(cases)
             cases = cases[:3000]
+        if u == "objects":
+            # the same programs with keys named like members every JavaScript object inherits
+            from . import decmodel as _dm
+            from .encode import enc_diff as _encd
+            ren = []
+            for j, c in enumerate(cases[:1500 if chk.quick else len(cases)]):
+                m = _dm.RENAMINGS[j % len(_dm.RENAMINGS)]
+                ren.append({"a": enc(_dm.rename_doc(dec(c["a"]), m)), "d": _encd(_dm.rename_diff(dec_diff(c["d"]), m)),
+                            "r": enc(_dm.rename_doc(dec(c["r"]), m))})
+            cases = cases + ren
         for k, c in enumerate(cases):
             a, d, exp = dec(c["a"]), dec_diff(c["d"]), dec(c["r"])
             tid = "w-%s-%d" % (u, k)
@@ -101,6 +111,9 @@ def run():
     for kind, cases in dm.items():
         send = [c for c in cases if decmodel.ts_sendable(c)]
         dm_cases[kind] = decmodel.sample(send, r, 4000 if chk.quick else None)
+        if kind == "objects":
+            dm_cases[kind] += [decmodel.rename_case(c, decmodel.RENAMINGS[j % len(decmodel.RENAMINGS)])
+                               for j, c in enumerate(dm_cases[kind][:1500 if chk.quick else len(dm_cases[kind])])]
         jobs += decmodel.ts_jobs(dm_cases[kind], kind)
     res = tsrun.run_jobs(jobs)
     dm_n = {kind: decmodel.check_ts(chk, cs, kind, res) for kind, cs in dm_cases.items()}
